@@ -363,6 +363,7 @@ class Check:
             if antgen.WARM['built']:
                 self.stats['objects_built'] = antgen.WARM['built']
                 self.stats['objects_with_history'] = antgen.WARM['warmed']
+                self.stats['objects_scaled_through_the_api'] = antgen.SCALED['built']
         except Exception:
             pass
         if getattr(self, 'cover_on', False):
